@@ -6,17 +6,23 @@ sys.path.insert(0, vlib.VERIF)
 from gen import builders as B
 
 def builder_half(c, tier):
+    # the typestate API has cfg twins (the docs setters): the frontier is compiled against both builds of the library
+    for docs in (False, True):
+        builder_half_for(c, tier, docs)
+
+def builder_half_for(c, tier, docs):
     thorough = tier == "thorough"
-    negs = BC.explore(c, False, 4 if thorough else 3, "NEG")
-    # the frontier of the automaton: one shortest legal prefix per (builder, form, typestate, disabled call)
+    negs = BC.explore(c, docs, 4 if thorough else 3, "NEG")
+    # the frontier of the automaton: one shortest legal prefix per (builder, form, typestate, disabled call, SET OF
+    # METHODS called so far) - a setter that wrongly changes the typestate shows only after that setter was called
     best = {}
     for n in negs:
-        k = json.dumps([n["b"], n["f"], n["arg"], n["ts"], n["bad"]], sort_keys=True)
+        k = json.dumps([n["b"], n["f"], n["arg"], n["ts"], n["bad"], sorted(set(x["m"] for x in n["calls"]))], sort_keys=True)
         if k not in best or len(json.dumps(n["calls"])) < len(json.dumps(best[k]["calls"])):
             best[k] = n
     cases = sorted(best.values(), key=lambda n: json.dumps(n, sort_keys=True))
-    deps = rsprog.Deps(())
-    pd = os.path.join(c.wd, "neg"); os.makedirs(pd, exist_ok=True)
+    deps = rsprog.Deps(("docs",) if docs else ())
+    pd = os.path.join(c.wd, "neg_docs" if docs else "neg"); os.makedirs(pd, exist_ok=True)
     jobs, meta = [], []
     neigh = {}
     for i, n in enumerate(cases):
@@ -42,22 +48,25 @@ def builder_half(c, tier):
             s2 = os.path.join(pd, "k%04d.rs" % len(neigh)); open(s2, "w").write(B.single_program(ok_e)); neigh[ok_e] = s2
             jobs.append((s2, s2[:-3])); meta.append(("pos", n, ok_e))
     res = deps.compile_many(jobs)
-    accepted, codes = [], {}
+    accepted, codes, broken_pos = [], {}, []
     for (src, exe), (kind, n, e), (ok, diags) in zip(jobs, meta, res):
         vlib.discard(exe)
         if kind == "pos" and not ok:
-            raise vlib.ToolError("the legal neighbour of a negative case does not compile (renderer problem): %s\n%s" % (e, diags[0]["rendered"][:600] if diags else ""))
+            broken_pos.append((e, diags)); continue
         if kind == "neg":
             if ok: accepted.append((n, e, src))
             else:
                 for d in diags[:1]: codes[d["code"] or "?"] = codes.get(d["code"] or "?", 0) + 1
     c.add("programs", len(jobs)); c.add("evaluations", len(cases)); c.add("negative_builder_programs", len(cases)); c.add("traces_validated_against_impl", len(cases))
-    c.cov["builder_rejection_codes"] = codes
+    c.cov["builder_rejection_codes" + ("_docs" if docs else "")] = codes
     c.sample({"must_not_compile": meta[0][2]})
     if accepted:
         n, e, src = accepted[0]
         rp = c.replay_file("ill_formed_accepted.rs", open(src).read())
-        c.violation("builder-accepts", "%d call sequences that leave the typestate automaton compile; first: %s" % (len(accepted), e), rp)
+        c.violation("builder-accepts", "%d call sequences that leave the typestate automaton compile (docs feature %s); first: %s" % (len(accepted), "on" if docs else "off", e), rp)
+    elif broken_pos:      # (a violation found above is reported first; a legal sequence that is rejected is C17's subject)
+        e, diags = broken_pos[0]
+        raise vlib.ToolError("the legal neighbour of a negative case does not compile (renderer problem, or the library rejects a legal sequence: C17 judges that): %s\n%s" % (e, diags[0]["rendered"][:600] if diags else ""))
 
 def run(tier, replay=None):
     c = vlib.Check("C20", tier, "model_checking")
@@ -75,7 +84,7 @@ def run(tier, replay=None):
     if derivecommon:
         derivecommon.c20_derive_half(c, tier)
     c.cov["exhaustive"] = True
-    c.cov["rule"] = "builders: the complete frontier of the typestate automaton (every reachable typestate of every builder in both forms x every call of the alphabet that is not enabled there: missing path, missing index, missing type, named/unnamed mix, field on unit, repeated name/ty/index/path), each as a stand-alone program that must fail to compile while its legal prefix compiles; derive: see derive_* keys"
+    c.cov["rule"] = "builders: the complete frontier of the typestate automaton (every reachable typestate of every builder in both forms x every call of the alphabet that is not enabled there: missing path, missing index, missing type, named/unnamed mix, field on unit, repeated name/ty/index/path), each after every set of methods that can precede it, as a stand-alone program that must fail to compile while its legal prefix compiles, against the library built without and with the docs feature (the docs setters are cfg twins); derive: see derive_* keys"
     c.assumptions += ["rustc is the oracle for 'does not compile'; the legal-neighbour rule guards against renderer artefacts",
                       "the Default-impl escape hatch (TypeBuilder::<_, PathAssigned>::default()) is outside the negative grammar: it panics before yielding a value (DESIGN 5/C20)"]
     return c.finish()
